@@ -13,6 +13,8 @@
 (*   ReduceMerges    after reduce() no two ADJACENT branches are identical *)
 (*                   as tables is not demanded - only that nothing is lost *)
 (*   ProbabilityOK   the reported total equals the sum of the weights      *)
+(*   EqualityOK      == answers whether the two mixtures are the same bag  *)
+(*                   of (weight, tableau), in whatever order               *)
 (* (Measurement and reset of a multi-branch mixture act per branch - the   *)
 (* named deviation of C06-K1 - and are not part of this check.)            *)
 (***************************************************************************)
@@ -25,8 +27,17 @@ MixValid(o) == \A k \in DOMAIN o.branches : TClause(o.branches[k].tab) = "ok"
 MixEns(o) ==
   MergeTagged({[t |-> k, g |-> TGroup(o.branches[k].tab), w |-> Norm(o.branches[k].w[1], o.branches[k].w[2])]
                : k \in DOMAIN o.branches})
+\* the mixture as a bag of (weight, tableau): what == is documented to compare ("the same set of tableaux with the same
+\* probability"), whatever the order of the branches
+BagKey(o, k) == <<Norm(o.branches[k].w[1], o.branches[k].w[2]), o.branches[k].tab>>
+SameBag(a, b) ==
+  /\ Len(a.branches) = Len(b.branches)
+  /\ \A k \in DOMAIN a.branches :
+        Cardinality({j \in DOMAIN a.branches : BagKey(a, j) = BagKey(a, k)}) =
+        Cardinality({j \in DOMAIN b.branches : BagKey(b, j) = BagKey(a, k)})
 Verdict(E, e) ==
   IF e.err # "" THEN "Raised"
+  ELSE IF e.ev = "eq" /\ e.res # SameBag(e.obs, e.other) THEN "EqualityOK"
   ELSE IF ~MixValid(e.obs) THEN "BranchesValid"
   ELSE LET want == IF e.ev = "gate" THEN ApplyUnitary(E, e.kind, e.q) ELSE E IN
     IF MixEns(e.obs) # want THEN "MixtureOK"
